@@ -429,17 +429,6 @@ public:
 
    virtual uint32 TemplatedTypeCode() const {return B_BOOL_TYPE;}
 
-   virtual status_t TemplatedUnflatten(DataUnflattener & unflat)
-   {
-      MRETURN_ON_ERROR(PrimitiveTypeDataArray<bool>::TemplatedUnflatten(unflat));
-
-      // The received bytes might hold values other than 0 and 1, which a bool must never hold, so we normalize them here
-      uint8 * b = reinterpret_cast<uint8 *>(_data.HeadPointer());
-      const uint32 numItems = _data.GetNumItems();
-      for (uint32 i=0; i<numItems; i++) if (b[i] > 1) b[i] = 1;
-      return B_NO_ERROR;
-   }
-
    virtual const char * GetFormatString() const {return "%i";}
 
    virtual AbstractDataArrayRef Clone() const;
